@@ -7,10 +7,10 @@
     fixed point is proved for every value satisfying the decidable conformance predicate
     [conf_ty] (what a canonical decoder output looks like), in any reader format; forwarding
     through XML / JSON is proved at the generic-tree level (C04's faithfulness theorems).
-    NOT yet a theorem: that the typed decoder's output on an arbitrary accepted input is a
-    fixed point after ONE hop (it normalises: explicit zero-valued optional elements,
-    later-version elements, unknown trailing elements disappear at the first re-encoding) -
-    that part is covered by the correspondence/oracle run on mutated and foreign inputs. *)
+    The typed decoder's output on an ARBITRARY accepted input (it normalises on the first hop:
+    explicit zero-valued optional elements, later-version elements, empty byte strings,
+    unknown trailing elements disappear at the first re-encoding) is the subject of
+    Props/C18Typed.v (decoded_one_hop and its binary / whole-message instances). *)
 From Coq Require Import ZArith List Bool String.
 From KV Require Import Base Wire Cursor BinCursorProofs Schema SchemaSem FaithfulProofs Roundtrip RoundtripProofs RoundtripCustoms FixpointProofs
   TextLex TextFmt TextFmtProofs.
